@@ -352,6 +352,9 @@ func TestVerifC34(t *testing.T) {
 		}
 	}
 	st["b_extreme_cases"] = nbe
+	// directed stream: a taken forward branch of every kind to every byte offset of a body holding
+	// every instruction layout (incl. the prefixed sub-opcode instructions of v13+ app mode)
+	vTargetSweep(out, st)
 	nb := vEnvInt("VERIF_C34_B", 3000)
 	for i := 0; i < nb; i++ {
 		vRunB(out, st, rnd)
@@ -636,4 +639,95 @@ func vRunBProg(out *vOut, st map[string]int, v uint64, mode RunMode, lsv uint64,
 	if chk == 0 {
 		st["b_check_ok_steps"] += len(tr.steps)
 	}
+}
+
+// ---------------------------------------------------------------- (b) forward-target sweep
+// vTargetSweep: for every version and both modes, a body made of one instruction of every
+// layout kind the version/mode allows (1-byte ops, byte immediates, varuint / length-prefixed
+// immediates, constant blocks, 2-byte and varint branches, switch tables, and -- v13+ app mode --
+// every prefixed sub-opcode instruction), preceded by a forward branch of every kind
+// (bnz / bz / b / callsub / switch label / match label) that is TAKEN at run time and targets
+// EVERY byte offset from the end of the branch to one past the end of the program.  The static
+// verdict is compared with the model's instruction-boundary set and the executed jump with the
+// instruction starts of the real checkStep.
+func vSweepBody(v uint64, mode RunMode) []byte {
+	var b []byte
+	add := func(minv uint64, bs ...byte) {
+		if v >= minv {
+			b = append(b, bs...)
+		}
+	}
+	add(1, 0x22)                                     // intc_0
+	add(1, 0x21, 0x01)                               // intc 1
+	add(1, 0x48, 0x48)                               // pop; pop
+	add(1, 0x31, 0x00, 0x48)                         // txn Sender; pop
+	add(1, 0x33, 0x00, 0x01, 0x48)                   // gtxn 0 Fee; pop
+	add(3, 0x81, 0xac, 0x02, 0x48)                   // pushint 300; pop
+	add(3, 0x80, 0x03, 0xd4, 0x05, 0x42)             // pushbytes 0xd40542
+	add(3, 0x48)                                     // pop
+	add(1, 0x26, 0x02, 0x01, 0x61, 0x02, 0xd4, 0x06) // bytecblock "a" 0xd406
+	if v >= foreignBoxVersion && mode == ModeApp {
+		for sub := byte(1); sub <= 9; sub++ { // every prefixed instruction: args pushed, result dropped by a later error at worst
+			b = append(b, 0xd4, sub)
+		}
+	}
+	add(8, 0x83, 0x02, 0x01, 0x02, 0x48, 0x48)       // pushints 1 2; pop; pop
+	add(8, 0x22, 0x8d, 0x02, 0x00, 0x00, 0x00, 0x00) // intc_0; switch l l (both to the next instruction)
+	if v >= varintBranchVersion {
+		b = append(b, 0x42, 0x00) // b +0
+	} else if v >= 2 {
+		b = append(b, 0x42, 0x00, 0x00)
+	}
+	add(8, 0x23, 0x8b, 0x00, 0x48, 0x48) // intc_1; frame_dig 0; pop; pop (never reached usefully)
+	b = append(b, 0x23)                  // intc_1
+	return b
+}
+
+func vTargetSweep(out *vOut, st map[string]int) {
+	n := 0
+	for v := uint64(1); v <= LogicVersion; v++ {
+		varintBr := v >= varintBranchVersion
+		for _, mode := range []RunMode{ModeSig, ModeApp} {
+			body := vSweepBody(v, mode)
+			hdr := append(vUvarint(v), 0x20, 0x02, 0x00, 0x01) // intcblock 0 1
+			type kind struct {
+				minv uint64
+				pre  []byte // pushes making the branch taken
+				op   byte
+				sw   bool
+			}
+			kinds := []kind{
+				{1, []byte{0x23}, 0x40, false},      // intc_1; bnz
+				{2, []byte{0x22}, 0x41, false},      // intc_0; bz
+				{2, nil, 0x42, false},               // b
+				{4, nil, 0x88, false},               // callsub
+				{8, []byte{0x22}, 0x8d, true},       // intc_0; switch (label 0 taken)
+				{8, []byte{0x23, 0x23}, 0x8e, true}, // intc_1; intc_1; match (label 0 taken)
+			}
+			for _, k := range kinds {
+				if v < k.minv {
+					continue
+				}
+				// a forward offset is relative to the end of the branch instruction, i.e. to the start of
+				// the body, whatever the size of its own encoding
+				for off := 0; off <= len(body)+1; off++ {
+					prog := append([]byte{}, hdr...)
+					prog = append(prog, k.pre...)
+					switch {
+					case k.sw:
+						prog = append(prog, k.op, 0x01, byte(off>>8), byte(off))
+					case varintBr:
+						prog = append(prog, k.op)
+						prog = append(prog, vVarint(int64(off))...)
+					default:
+						prog = append(prog, k.op, byte(off>>8), byte(off))
+					}
+					prog = append(prog, body...)
+					vRunBProg(out, st, v, mode, LogicVersion, prog)
+					n++
+				}
+			}
+		}
+	}
+	st["b_target_sweep_cases"] = n
 }
